@@ -85,14 +85,16 @@ Sections(b) == LET i == FirstIdx(b, 9) IN
 SameBag(s, t) == /\ Len(s) = Len(t)
                  /\ \A i \in 1..Len(s) : Cardinality({j \in 1..Len(s) : s[j] = s[i]}) = Cardinality({j \in 1..Len(t) : t[j] = s[i]})
 
-\* --- framebuffer: description of the first framebuffer tag; RGB layout for direct-colour (type 1)
+\* --- framebuffer: description of the first framebuffer tag; RGB layout for direct-colour (type 1) and for no other
+\* type (indexed tags carry a palette, EGA text tags nothing, where the layout would be)
 FbIdx(b) == FirstIdx(b, 8)
 FbAllowed(b, o) == LET i == FbIdx(b) IN
   IF i = 0 THEN ~o.present
   ELSE /\ o.present
        /\ o.addr = b[i].addr /\ o.pitch = b[i].pitch /\ o.w = b[i].w /\ o.h = b[i].h
        /\ o.bpp = b[i].bpp /\ o.ft = b[i].ft
-       /\ (b[i].ft = 1 => o.rgb = SubSeq(b[i].ci, 1, 6))
+       \* an RGB layout is reported iff the block encodes one: direct-colour (type 1) only; o.rgb = <<>> means none (nil)
+       /\ o.rgb = (IF b[i].ft = 1 THEN SubSeq(b[i].ci, 1, 6) ELSE <<>>)
 
 \* --- verdict on one observation record
 \* obs = [mm |-> [res, regs], fb |-> [res, present, addr, pitch, w, h, bpp, ft, rgb],
